@@ -9,7 +9,8 @@
      5. read_message_frame / read_loop
      6. read / run_op / run_ops
      7. over-limit input does yield the capacity error (positive direction)
-     8. statements in the form used by props/C06.v and props/C07.v *)
+     8. statements in the form used by props/C06.v and props/C07.v
+     9. bound on the in-buffer length *)
 From TungModel Require Import Base Coding Mask Header Frame Utf8 World Message Codec Protocol.
 From Coq Require Import Lia ZifyBool ZifyNat ZifyN.
 
@@ -2050,4 +2051,216 @@ Proof.
   - destruct (two64 <=? incmsg_len m + blen tail) eqn:E; [lia|]. cbn [fst]. discriminate.
   - destruct m as [c|v]; [|cbn [fst]; discriminate].
     destruct (collector_extend c tail); cbn [fst]; discriminate.
+Qed.
+
+(* ====================================================================== *)
+(* part 9: the in-buffer is bounded: a transport read is only issued while fewer than max F 14 bytes are
+   buffered, so if every read returns at most R bytes (R = spare capacity offered to the transport),
+   in_buffer always holds fewer than max F 14 + R bytes *)
+
+Lemma header_parse_incomplete_len (bs : bytes) : header_parse bs = PIncomplete -> blen bs < 14.
+Proof.
+  unfold header_parse.
+  destruct bs as [|first [|second r]]; try (intros _; unfold blen; cbn [length]; lia).
+  destruct (opcode_of_u8 (N.land first 15)) as [opc|]; [|discriminate].
+  set (ll := lf_extra (lf_for_byte (N.land second 127))).
+  assert (Hll : ll <= 8) by (subst ll; destruct (lf_extra_for_byte (N.land second 127)) as [H|[H|H]]; rewrite H; lia).
+  rewrite !blen_cons.
+  destruct (8 <? ll); [discriminate|].
+  destruct (blen r <? ll) eqn:E1; [intros _; lia|].
+  destruct (bit second 128).
+  - pose proof (blen_dropN ll r) as Hd.
+    destruct (dropN ll r) as [|a [|b [|c0 [|d r']]]]; rewrite ?blen_cons, ?blen_nil in Hd;
+      try (intros _; lia).
+    destruct (is_reserved opc); discriminate.
+  - destruct (is_reserved opc); discriminate.
+Qed.
+
+Lemma try_take_needmore_buf mx c n c' :
+  try_take mx c = TkNeedMore n c' -> blen (c_in c') < N.max mx 14.
+Proof.
+  rewrite try_take_eq.
+  destruct (after_parse_spec c) as [hl Eh | Eh Ep | h len k Eh Ep | i Eh Ep].
+  - rewrite Eh. destruct hl as [h len].
+    destruct (mx <? len) eqn:E1; [discriminate|].
+    destruct (len <=? blen (c_in c)) eqn:E2; [discriminate|].
+    intros H; inversion H; subst. lia.
+  - rewrite Eh. intros H; inversion H; subst. apply header_parse_incomplete_len in Ep. lia.
+  - cbn [c_hdr c_in set_hdr set_in].
+    destruct (mx <? len) eqn:E1; [discriminate|].
+    destruct (len <=? blen (dropN k (c_in c))) eqn:E2; [discriminate|].
+    intros H; inversion H; subst. cbn [c_in set_hdr set_in]. lia.
+  - discriminate.
+Qed.
+
+Definition chunk_ok (R : N) (rd : rd_out) : Prop :=
+  match rd with RdData bs => blen bs <= R | _ => True end.
+
+Definition bufok (F R : N) (c : codec) (rds : list rd_out) : Prop :=
+  Forall (chunk_ok R) rds /\ blen (c_in c) < N.max F 14 + R.
+
+Lemma rfl_buf mx R : forall rds c log r c' rds' log',
+  read_frame_loop mx rds c log = (r, c', rds', log') -> bufok mx R c rds -> bufok mx R c' rds'.
+Proof.
+  induction rds as [|rd rds IH]; intros c log r c' rds' log'; rewrite rfl_eq;
+    pose proof (try_take_spec mx c) as Hs; pose proof (try_take_needmore_buf mx c) as Hb;
+    destruct (try_take mx c) as [h len p c1 | n c1 | e c1 | s];
+    try (exfalso; inversion Hs; fail);
+    try (inversion Hs; subst; intros H [B1 B2]; inversion H; subst; split; [assumption|unfold blen in *; lia]);
+    specialize (Hb _ _ eq_refl); cbv zeta.
+  destruct rd as [[|b bs]| |k];
+      try (intros H [B1 B2]; inversion H; subst; inversion B1; subst; split; [assumption|lia]).
+  intros H [B1 B2]. inversion B1 as [|? ? Hc B1']; subst. cbn [chunk_ok] in Hc.
+  apply IH in H; [exact H|]. split; [exact B1'|]. cbn [c_in set_in]. rewrite blen_app. lia.
+Qed.
+
+Lemma read_frame_buf ms R um au c w r c' w' :
+  read_frame ms um au c w = (r, c', w') ->
+  bufok (limit_of ms) R c (w_rds w) -> bufok (limit_of ms) R c' (w_rds w').
+Proof.
+  unfold read_frame.
+  destruct (read_frame_loop (limit_of ms) (w_rds w) c (w_log w)) as [[[r0 c0] rds0] log0] eqn:E.
+  pose proof (rfl_buf _ R _ _ _ _ _ _ _ E) as E'. clear E. rename E' into E.
+  assert (Hgen : forall r1 : res (option frame),
+     (r1, c0, mkWorld rds0 (w_wrs w) (w_fls w) (w_keys w) log0) = (r, c', w') ->
+     bufok (limit_of ms) R c (w_rds w) -> bufok (limit_of ms) R c' (w_rds w')).
+  { intros r1 H; inversion H; subst. cbn [w_rds]. exact E. }
+  destruct r0 as [[[[h len] p]|]|e|s|]; try apply Hgen.
+  destruct (negb (blen p =? len)); [apply Hgen|].
+  destruct um; [destruct (h_mask h); [|destruct au]|]; apply Hgen.
+Qed.
+
+Definition xbufok (F R : N) (x : ctx) (w : world) : Prop := bufok F R (x_codec x) (w_rds w).
+
+(* the codec and the world after read_message_frame are those returned by read_frame *)
+Lemma rmf_codec M x w r x' w' :
+  cfg_max_message_size (x_cfg x) = Some M ->
+  read_message_frame x w = (r, x', w') ->
+  exists r0, read_frame (cfg_max_frame_size (x_cfg x)) (role_eqb (x_role x) Server)
+                        (cfg_accept_unmasked (x_cfg x)) (x_codec x) w = (r0, x_codec x', w').
+Proof.
+  intros HM. rewrite rmf_eq.
+  destruct (read_frame (cfg_max_frame_size (x_cfg x)) (role_eqb (x_role x) Server)
+                       (cfg_accept_unmasked (x_cfg x)) (x_codec x) w) as [[r0 c1] w1] eqn:E.
+  destruct (check_connection_reset r0 (x_state x)) as [r0' s1] eqn:Ec. cbv zeta.
+  destruct r0' as [[f|]|e|s|].
+  - intros H. apply (dispatch_spec 0 M) in H; [|exact HM].
+    destruct H as [Dw _ Dcod _ _ _ _ _ _]. subst w'. rewrite Dcod. exists r0. reflexivity.
+  - destruct (x_state (set_state (set_codec x c1) s1)); intros H; inversion H; subst; exists r0; reflexivity.
+  - intros H; inversion H; subst; exists r0; reflexivity.
+  - intros H; inversion H; subst; exists r0; reflexivity.
+  - intros H; inversion H; subst; exists r0; reflexivity.
+Qed.
+
+Lemma rmf_buf F M R x w r x' w' :
+  cfg_max_frame_size (x_cfg x) = Some F -> cfg_max_message_size (x_cfg x) = Some M ->
+  read_message_frame x w = (r, x', w') -> xbufok F R x w -> xbufok F R x' w'.
+Proof.
+  intros HF HM H. apply (rmf_codec M) in H; [|exact HM]. destruct H as [r0 H]. rewrite HF in H.
+  exact (read_frame_buf _ R _ _ _ _ _ _ _ H).
+Qed.
+
+Lemma keep_buf F0 F R x w x' w' : keep F0 x w x' w' -> xbufok F R x w -> xbufok F R x' w'.
+Proof.
+  intros [K1 [K2 [K3 [K4 [K5 K6]]]]]. unfold xbufok, bufok. rewrite K3, K5. auto.
+Qed.
+
+Lemma read_loop_buf F M R : forall fuel x w r x' w',
+  cfg_max_frame_size (x_cfg x) = Some F -> cfg_max_message_size (x_cfg x) = Some M ->
+  read_loop fuel x w = (r, x', w') -> xbufok F R x w -> xbufok F R x' w'.
+Proof.
+  induction fuel as [|fuel IH]; intros x w r x' w' HF HM.
+  - cbn [read_loop]. intros H; inversion H; subst; auto.
+  - rewrite read_loop_eq.
+    destruct (pre_read x w) as [[r0 x0] w0] eqn:Ep. apply (pre_read_spec F) in Ep. destruct Ep as [G0 K0].
+    pose proof (keep_buf _ F R _ _ _ _ K0) as Kb.
+    destruct K0 as [K1 _].
+    destruct r0 as [u|e|s|]; try (intros H; inversion H; subst; exact Kb).
+    destruct (read_message_frame x0 w0) as [[r1 x1] w1] eqn:Em.
+    pose proof (rmf_buf F M R _ _ _ _ _ ltac:(rewrite K1; exact HF) ltac:(rewrite K1; exact HM) Em) as Mb.
+    apply (read_message_frame_spec F M) in Em; [|rewrite K1; exact HF|rewrite K1; exact HM].
+    destruct Em as [Mcfg _ _ _ _ _ _ _ _ _].
+    destruct r1 as [[m|]|e|s|]; try (intros H; inversion H; subst; auto; fail).
+    intros H Hb. apply IH in H; auto; rewrite Mcfg, K1; assumption.
+Qed.
+
+Lemma run_op_buf F M R x o w res x' w' :
+  cfg_max_frame_size (x_cfg x) = Some F -> cfg_max_message_size (x_cfg x) = Some M ->
+  run_op x o w = (res, x', w') -> xbufok F R x w -> xbufok F R x' w'.
+Proof.
+  intros HF HM. destruct o as [|m| |c| | |wbs mx]; cbn [run_op].
+  - destruct (read x w) as [[r x1] w1] eqn:E. intros H; inversion H; subst; clear H.
+    unfold read in E. destruct (is_terminated (x_state x)); [inversion E; subst; auto|].
+    eapply read_loop_buf; eauto.
+  - destruct (write x m w) as [[r x1] w1] eqn:E. intros H; inversion H; subst; clear H.
+    apply (write_spec F) in E. destruct E as [_ K]. eapply keep_buf; eauto.
+  - destruct (flush x w) as [[r x1] w1] eqn:E. intros H; inversion H; subst; clear H.
+    apply (flush_spec F) in E. destruct E as [_ K]. eapply keep_buf; eauto.
+  - destruct (close x c w) as [[r x1] w1] eqn:E. intros H; inversion H; subst; clear H.
+    apply (close_spec F) in E. destruct E as [_ K]. eapply keep_buf; eauto.
+  - intros H; inversion H; subst; auto.
+  - intros H; inversion H; subst; auto.
+  - destruct (config_valid _); intros H; inversion H; subst; auto.
+Qed.
+
+Lemma ops_in_buffer_bound F M R : forall ops x w rs x' w',
+  cfg_max_frame_size (x_cfg x) = Some F -> cfg_max_message_size (x_cfg x) = Some M ->
+  run_ops x ops w = (rs, x', w') ->
+  Forall (chunk_ok R) (w_rds w) -> blen (c_in (x_codec x)) < N.max F 14 + R ->
+  blen (c_in (x_codec x')) < N.max F 14 + R.
+Proof.
+  assert (Hgen : forall ops x w rs x' w', lims F M x -> run_ops x ops w = (rs, x', w') ->
+            xbufok F R x w -> xbufok F R x' w').
+  { induction ops as [|o ops IH]; intros x w rs x' w' HL; cbn [run_ops].
+    - intros H; inversion H; subst; auto.
+    - destruct (run_op x o w) as [[res1 x1] w1] eqn:E1.
+      destruct (run_ops x1 ops w1) as [[rs2 x2] w2] eqn:E2.
+      intros H; inversion H; subst; clear H. intros Hb.
+      pose proof (run_op_buf F M R _ _ _ _ _ _ (proj1 HL) (proj2 HL) E1 Hb) as Hb1.
+      apply (run_op_spec F M) in E1; [|exact HL].
+      eapply IH; [exact (op_lims _ _ _ _ _ _ _ _ E1)|exact E2|exact Hb1]. }
+  intros ops x w rs x' w' HF HM H B1 B2.
+  destruct (Hgen ops x w rs x' w' (conj HF HM) H (conj B1 B2)) as [_ Hb]. exact Hb.
+Qed.
+
+(* single call form *)
+Lemma read_frame_in_buffer_bound F R um au c w r c' w' :
+  read_frame (Some F) um au c w = (r, c', w') ->
+  Forall (chunk_ok R) (w_rds w) -> blen (c_in c) < N.max F 14 + R ->
+  blen (c_in c') < N.max F 14 + R.
+Proof.
+  intros H B1 B2. exact (proj2 (read_frame_buf _ R _ _ _ _ _ _ _ H (conj B1 B2))).
+Qed.
+
+(* a transport read is issued only while fewer than max F 14 bytes are buffered *)
+Lemma read_issued_only_when_short F c n c' :
+  try_take F c = TkNeedMore n c' -> n <= N.max F 6 /\ blen (c_in c') < N.max F 14.
+Proof.
+  intros H. split; [|eapply try_take_needmore_buf; exact H].
+  pose proof (try_take_spec F c) as Hs. rewrite H in Hs. inversion Hs; assumption.
+Qed.
+
+(* the model-level quantities that stand for memory held while reading, together *)
+Lemma ctx_new_in role part cfg x : ctx_new role part cfg = Some x -> c_in (x_codec x) = part.
+Proof.
+  unfold ctx_new. destruct (config_valid cfg); [|discriminate]. intros H; inversion H; subst. reflexivity.
+Qed.
+
+Lemma ops_memory_bound F M R role part cfg x ops w rs x' w' :
+  cfg_max_frame_size cfg = Some F -> cfg_max_message_size cfg = Some M ->
+  ctx_new role part cfg = Some x ->
+  blen part < N.max F 14 + R -> Forall (chunk_ok R) (w_rds w) -> w_log w = [] ->
+  run_ops x ops w = (rs, x', w') ->
+  blen (c_in (x_codec x')) < N.max F 14 + R /\
+  running_size x' <= M /\
+  Forall (reserve_ok F) (w_log w').
+Proof.
+  intros HF HM Hn Hp Hr Hl H.
+  pose proof (ctx_new_in _ _ _ _ Hn) as Hin.
+  pose proof (ops_accumulator_bound F M _ _ _ _ _ _ _ _ _ HF HM Hn H) as Hacc.
+  destruct (ctx_new_spec M _ _ _ _ Hn) as [Hc _]. subst cfg.
+  split; [|split].
+  - apply (ops_in_buffer_bound F M R ops x w rs x' w' HF HM H Hr). rewrite Hin. exact Hp.
+  - unfold running_size. destruct (x_incomplete x') as [m|] eqn:Em; [|lia]. apply Hacc. reflexivity.
+  - apply (ops_reserve_bound F M x ops w rs x' w' HF HM H). rewrite Hl. constructor.
 Qed.
